@@ -158,7 +158,9 @@ def random_data(r, kws):
                 k = bytes(c ^ 0x20 if (65 <= (c & 0xDF) <= 90 and c < 128 and r.random() < 0.5) else c for c in k)
             parts.append(k)
         elif x < 0.75:
-            parts.append(r.choice([b" ", b"", b"-", b"a", b"1", b".", b"\n", b"_", b"\x00", b"\xe9", b"Z"]))
+            parts.append(r.choice([b" ", b"", b"-", b"a", b"1", b".", b"\n", b"_", b"\x00", b"\xe9", b"Z", b" ", b"-", b"_",
+                                   # letters whose UTF-8 length changes under Unicode case mapping
+                                   b"\xc4\xb0", b"\xe2\x84\xaa", b"\xc3\x9f", b"\xef\xac\x81", b"\xc8\xba"]))
         else:
             parts.append(rand_kw(r))
     return b"".join(parts)[:1024]
@@ -224,9 +226,11 @@ def make_kw_dir(r, d):
             kws.append(kws[0][1:])  # nested inside another keyword at a positive offset
         if files and files[0][1] and r.random() < 0.4:
             kws.append(files[0][1][0])  # a keyword listed in more than one file
-        nl = r.choice([b"\n", b"\r\n"])
+        nl0 = r.choice([b"\n", b"\r\n", b"\n", b"\r\n", b"\r", None])  # None: every line ends its own way
         raw = b""
+        nl = nl0 or b"\n"
         for k in kws:
+            nl = nl0 or r.choice([b"\n", b"\r\n", b"\r"])
             raw += k + nl
             if r.random() < 0.2:
                 raw += nl  # blank line
